@@ -108,6 +108,39 @@ def law_blocks(ch):
     )
 
 
+def law_init_phases(ch):
+    """__init__ with the documented `phases` argument (fermionic): the array
+    denotes the blocks with those signs applied."""
+    spec = ch.draw(
+        gen.array_specs(syms=ALLSYMS[:4], allow_empty=False, phases=[],
+                        ferm=True), "x")
+    if not spec["sectors"] or not spec["ferm"]:
+        return
+    cls = gen.array_class(spec["symm"], True, spec["dyn"])
+    kw = {**sym_kwargs(spec, ch.boolean("explicit-symmetry")),
+          **ferm_kwargs(spec)}
+    blocks = gen.make_blocks(spec)
+    indices = tuple(gen.build_index(ix) for ix in spec["idxs"])
+    neg = ch.subset(sorted(spec["sectors"]), "init-phases")
+    give_charge = ch.boolean("give-charge")
+    ckw = {"charge": spec["charge"]} if give_charge else {}
+    yp = must(cls, indices=indices, blocks=dict(blocks),
+              phases={s: -1 for s in neg}, what="__init__(phases=)",
+              **ckw, **kw)
+    signed = {s: (-np.asarray(b) if s in neg else np.asarray(b))
+              for s, b in blocks.items()}
+    want = must(cls, indices=indices, charge=spec["charge"], blocks=signed,
+                what="__init__", **kw)
+    require_valid(yp, "init:invalid", "phases=")
+    dense_equal(must(yp.to_dense, what="to_dense"), D.dense_of(want),
+                "init:phases-argument", what="array built with phases=")
+    ys = must(yp.phase_sync, what="phase_sync")
+    same_array(ys, want, "init:phases-argument-synced")
+    for lab in gen.spec_summary(spec):
+        ch.label(lab)
+    ch.mark_nontrivial(bool(neg))
+
+
 def law_fill(ch):
     """from_fill_fn / random vs __init__ on the model's sector set."""
     spec = ch.draw(
@@ -318,6 +351,9 @@ LAWS = [
     Law("blocks", law_blocks, quick=1500, thorough=20000,
         doc="__init__ (charge inferred) and from_blocks agree with the "
             "explicit constructor"),
+    Law("init_phases", law_init_phases, quick=600, thorough=8000,
+        doc="fermionic __init__(phases=P) denotes the blocks with the signs "
+            "P applied"),
     Law("fill", law_fill, quick=1000, thorough=12000,
         doc="from_fill_fn / random store exactly the model's valid sectors "
             "and agree with __init__"),
